@@ -4,7 +4,7 @@
 set -u
 src=$1; name=$2; shift 2
 export GOFLAGS=-mod=mod GOPROXY=off GOSUMDB=off
-W=/tmp/wt/verify-$name
+mkdir -p /tmp/wt; W=/tmp/wt/verify-$name
 rm -rf $W; git -C /repo worktree prune; git -C /repo worktree add -q --detach $W HEAD || exit 2
 res=""
 cd $W
@@ -40,4 +40,4 @@ fi
 cd /verif
 git -C /repo worktree remove --force $W
 echo "RESULT $name: failed_tests=[$failed] suite_failures_with_patch=$suite demo_with_patch=$dres_with demo_without_patch=$dres_without"
-for id in "$@"; do /verif/muttest.sh $src/patch.diff $id 2>&1 | cut -c1-420; done
+WIDTH=420 /verif/trial.sh $name $src/patch.diff ${TIER:-quick} "$@"
